@@ -193,9 +193,16 @@ def run_residue(c):
         import itertools as _it
         N, D = c["N"], len(c["cats"])
         ext = [int(x) for x in c["ishape"]] if c.get("ishape") is not None else [max(per[0][1]) + 1 for per in c["cats"]]
-        perms = list(_it.islice(_it.permutations(pool, len(base_w)), 0, 360, 17))
-        budget = 6000
-        for assign in _it.product(*[range(ext[d]) for d in range(D) for _ in range(N)]):
+        import random as _random
+        perms = list(_it.permutations(pool, len(base_w)))
+        _random.Random(len(base_w)).shuffle(perms)          # a fixed, spread-out sample of the weight assignments
+        perms = perms[:24]
+        # two passes: with the model's validity pattern, then with every weight and fact valid (more addends per cell)
+        for allvalid, assign in [(av, a) for av in (False, True) for a in _it.product(*[range(ext[d]) for d in range(D) for _ in range(N)])]:
+            if not allvalid:
+                budget = 3000 if assign == tuple([0] * (N * D)) else budget
+            elif assign == tuple([0] * (N * D)):
+                budget = 3000
             if c.get("ishape") is None and any(max(assign[d * N:(d + 1) * N]) != ext[d] - 1 for d in range(D)):
                 continue
             for perm in perms:
@@ -204,6 +211,12 @@ def run_residue(c):
                 budget -= 1
                 cc = copy.deepcopy(c)
                 cc.pop("residue")
+                if allvalid:
+                    cc["wvalid"] = [True] * N
+                    if cc.get("vvalid") is not None:
+                        cc["vvalid"] = [[True] * len(row) for row in cc["vvalid"]]
+                        # and non-zero fact values (a zero sum over a residue is 0/0 = NaN, which reads as "missing")
+                        cc["vals"] = [[enc(Fraction(r + 1 + 2 * k)) for k in range(len(row))] for r, row in enumerate(cc["vvalid"])]
                 cc["cats"] = [[[[], list(assign[d * N:(d + 1) * N])]] for d in range(D)]
                 cc["w"] = enc(list(perm))
                 cc["mask_only"] = True
